@@ -99,5 +99,8 @@ Next == \/ \E d \in 0..SpineDepth(doc), kind \in LeafKinds : AddLeaf(d, kind)
 
 Spec == Init /\ [][Next]_vars
 
-Emit == n >= 1 => PrintT(<<"VEC", ToJson([doc |-> [meta |-> "", blocks |-> doc]])>>)
+\* every document without front matter; the documents of up to two nodes also with a one-line and a two-line front matter
+Emit == n >= 1 => /\ PrintT(<<"VEC", ToJson([doc |-> [meta |-> "", blocks |-> doc]])>>)
+                  /\ (n <= 2 => /\ PrintT(<<"VEC", ToJson([doc |-> [meta |-> "k: v\n", blocks |-> doc]])>>)
+                                /\ PrintT(<<"VEC", ToJson([doc |-> [meta |-> "a: b\nc: d\n", blocks |-> doc]])>>))
 =============================================================================
